@@ -6,7 +6,9 @@ import PPModel
 open PP
 
 def handlers : List (List Sexp → Option Sexp) :=
-  [ Driver.lineColHandle, Driver.parseHandle ]
+  [ Driver.lineColHandle,
+    Driver.parseHandle,
+    Driver.diagramHandle ]
 
 def dispatch (line : String) : String :=
   match Sexp.parseAll line with
